@@ -12,6 +12,9 @@ type Gen struct {
 	R                                                              *rand.Rand
 	bigMerges                                                      int // BigMerge cycles through its three variants
 	bigBuilds, twins, reencodes, exacts, zerodocs, onehits, tinies int
+	// FreeLen: now and then a field reports a length that is not the sum of its term frequencies
+	// (0, 1, or more than the sum); every property but C16 quantifies over such inputs too
+	FreeLen bool
 }
 
 func NewGen(seed int64) *Gen { return &Gen{R: rand.New(rand.NewSource(seed))} }
@@ -179,6 +182,9 @@ func (g *Gen) Batch(o BatchOpts) Batch {
 				}
 				f.Len += tm.Freq
 				f.Terms = append(f.Terms, tm)
+			}
+			if g.FreeLen && len(f.Terms) > 0 && r.Intn(14) == 0 {
+				f.Len = []int{0, 1, f.Len + 3}[r.Intn(3)]
 			}
 			doc = append(doc, f)
 		}
